@@ -1368,6 +1368,67 @@ func (p *llParser) resolveFunc(f *LLFunc) {
 	}
 }
 
+// precomputeLayouts computes the layout caches of every sized type reachable from the module while it is still owned
+// by one goroutine (the parsed module is shared read-only between workers afterwards).
+func (mod *LLModule) precomputeLayouts() {
+	seen := map[*LLType]bool{}
+	var visit func(t *LLType)
+	visit = func(t *LLType) {
+		if t == nil || seen[t] {
+			return
+		}
+		seen[t] = true
+		visit(t.Elem)
+		visit(t.Ret)
+		for _, f := range t.Fields {
+			visit(f)
+		}
+		for _, f := range t.Params {
+			visit(f)
+		}
+		switch t.Kind {
+		case LLInt, LLPtrT, LLArray, LLStruct:
+			func() {
+				defer func() { recover() }() // opaque / unsized: reported when (if) actually used
+				t.layout()
+			}()
+		}
+	}
+	var visitOp func(o *LLOperand)
+	visitOp = func(o *LLOperand) {
+		if o == nil {
+			return
+		}
+		visit(o.Type)
+		visit(o.SrcElem)
+		for _, e := range o.Elems {
+			visitOp(e)
+		}
+	}
+	for _, t := range mod.Types {
+		visit(t)
+	}
+	for _, g := range mod.Globals {
+		visit(g.Type)
+		visitOp(g.Init)
+	}
+	for _, f := range mod.Funcs {
+		visit(f.Ret)
+		for _, p := range f.Params {
+			visit(p.Type)
+		}
+		for _, b := range f.Blocks {
+			for _, ins := range b.Instrs {
+				visit(ins.Type)
+				visit(ins.Ty2)
+				for _, o := range ins.Ops {
+					visitOp(o)
+				}
+			}
+		}
+	}
+}
+
 // ---- map definitions ----
 
 var (
